@@ -326,15 +326,24 @@ def run(ctx):  # noqa: C901
     res = flw.flow(bm.node)
     okg = any(flw.conds(f) and "builtins.len" in repr(N2(flw.conds(f)[-1][0])) and "('c', 2)" in repr(N2(flw.conds(f)[-1][0])) for _, f in res.raises)
     ctx.ob("R-GUARD", bm, "only two-outcome inequalities accepted", okg, "len(a_val) != 2 or len(b_val) != 2 raises" if okg else "two-outcome guard missing")
-    # measurement operators a*I + (-1)^a P with 0-based perms exchanging 0 and x
+    # measurement operators a*I + (-1)^a P with 0-based perms exchanging 0 and x: the two operands of the Kronecker product that is
+    # accumulated into the objective matrix (found by position, through the locals that may name them)
     n_ops = 0
-    for n in walk_no_nested(bm.node):
-        if isinstance(n, ast.Assign) and isinstance(n.targets[0], ast.Name) and n.targets[0].id in ("M", "N") and "permutation_operator" in unparse(n.value):
-            t = N2(n.value)
-            who = "a" if n.targets[0].id == "M" else "b"
+    kr = [c for n in walk_no_nested(bm.node) if isinstance(n, ast.AugAssign) and isinstance(n.target, ast.Name) and n.target.id == "obj_mat"
+          for c in ast.walk(n.value) if isinstance(c, ast.Call) and m.resolve_call(bm, c).key == "numpy.kron" and len(c.args) == 2]
+    for c in kr[:1]:
+        for who, arg in zip(("a", "b"), c.args):
+            src = arg
+            if isinstance(arg, ast.Name):
+                dfs = [n for n in walk_no_nested(bm.node) if isinstance(n, ast.Assign) and len(n.targets) == 1 and isinstance(n.targets[0], ast.Name) and n.targets[0].id == arg.id]
+                dfs = sorted([d_ for d_ in dfs if d_.lineno <= c.lineno], key=lambda d_: d_.lineno)
+                src = dfs[-1].value if dfs else arg
+            if "permutation_operator" not in unparse(src):
+                continue
+            t = N2(src)
             ok = t[0] == "+" and any(x[0] == "*" and ("n", who) in x[1] and any(y[0] == "call" and y[1] in ("numpy.eye", "numpy.identity") for y in x[1]) for x in t[1]) and \
                 any(x[0] == "*" and ("**", ("c", -1), ("n", who)) in x[1] and any(y[0] == "call" and str(y[1]).endswith("permutation_operator") for y in x[1]) for x in t[1])
-            ctx.ob("R-ENUM", bm, f"outcome-{who} operator == {who}*I + (-1)^{who} * P", ok, "projector pair from the swap unitary" if ok else f"operator is {show(t)[:100]}", n)
+            ctx.ob("R-ENUM", bm, f"outcome-{who} operator == {who}*I + (-1)^{who} * P", ok, "projector pair from the swap unitary" if ok else f"operator is {show(t)[:100]}", src)
             n_ops += 1
     if not n_ops:
         ctx.ob("R-ENUM", bm, "outcome operators == o*I + (-1)^o * P", None, "the construction of the extended measurement operators is not in the recognised form", required=False)
